@@ -12,16 +12,20 @@ import (
 // Record runs n random cancellation scenarios on the real interpreter --
 // deeper nestings than the exhaustive model holds (up to 6 contexts), the
 // context made done at a random call (random position of the poll counter),
-// random amounts of pending output, cancel / deadline / done-before-the-call /
-// never -- and writes what the instruction hook observed, compressed to
+// random amounts of pending output (0-5 lines, or more than a buffer-full) at
+// a random destination (unbuffered / bufio.Writer standard output, a file, a
+// command), cancel / deadline / done-before-the-call / never -- and writes
+// what the instruction hook observed, compressed to
 //
 //	{"ev":"reset"}
 //	{"ev":"step","op":"start","ctx":true,"pre":bool}
-//	{"ev":"step","op":"print","n":k}            lines printed before the cancellation
+//	{"ev":"step","op":"print","n":k,"dest":d}   lines printed before the cancellation, and where to: direct / buffered
+//	                                            standard output, file (print > f), cmd (print | command)
 //	{"ev":"step","op":"exec","n":N}             N instructions dispatched
 //	{"ev":"step","op":"cancel","why":w}
 //	{"ev":"step","op":"exec","n":M}             dispatched after the context was done
-//	{"ev":"step","op":"end","result":r,"errid":e,"delivered":k,"same":bool}
+//	{"ev":"step","op":"end","result":r,"errid":e,"delivered":{"direct":k,"buffered":k,"file":k,"cmd":k},"same":bool}
+//	                                            delivered: lines that had reached each destination when the call returned
 //
 // for Trace_Cancel.tla.  "same" (never-cancelled runs) says whether Execute
 // on a new interpreter gave the same output, status and error class.
@@ -40,29 +44,50 @@ func Record(seed int64, n int, out string) (int, error) {
 		bw.WriteByte('\n')
 	}
 	outer := []string{"begin", "action", "pattern", "end"}
+	destMenu := []string{"direct", "buffered", "file", "direct", "buffered", "file", "file", "buffered", "direct", "cmd"}
+	if !haveShell() {
+		destMenu = destMenu[:9]
+	}
+	deliveredAt := func(dest string, k int) map[string]int {
+		m := map[string]int{"direct": 0, "buffered": 0, "file": 0, "cmd": 0}
+		m[dest] = k
+		return m
+	}
 	for t := 0; t < n; t++ {
 		kinds := []string{outer[r.Intn(len(outer))]}
 		for d := r.Intn(6); d > 0; d-- {
 			kinds = append(kinds, []string{"func", "forin"}[r.Intn(2)])
 		}
-		shape := Shape{kinds, "none", r.Intn(6)}.Canon(false)
+		dest := destMenu[r.Intn(len(destMenu))]
+		printed := r.Intn(6)
+		if dest != "direct" && r.Intn(6) == 0 {
+			printed = bigLines // more than a buffer-full: part written out by the buffer filling up, the tail pending
+		}
+		shape := Shape{Kinds: kinds, Waiting: "none", Printed: printed, Dest: dest}.Canon(false)
 		emit(map[string]any{"ev": "reset"})
 		mode := r.Intn(10)
 		switch {
 		case mode == 0: // never cancelled
+			if shape.Printed > 6 {
+				shape.Printed = 5 // (the finite programs execute their innermost context a few thousand times only)
+			}
 			src := shape.Source(true)
 			input := ""
 			if shape.UsesRecords() {
 				input = Records[:100]
 			}
-			oc := compareWithExecute(src, input, []string{"K", "-1", "pad", fmt.Sprint(r.Intn(50))}, "x", shape.Printed)
+			oc := compareWithExecute(src, input, []string{"K", "-1", "pad", fmt.Sprint(r.Intn(50))}, "x", shape.Printed, dest, "")
 			if oc.Skipped || (oc.Fail != nil && oc.Fail.Sig == "C15-MODEL/nocancel/lines") {
 				return t, fmt.Errorf("driver program unusable: %s %v\n%s", oc.Note, oc.Fail, src)
 			}
 			emit(map[string]any{"ev": "step", "op": "start", "ctx": true, "pre": false})
-			emit(map[string]any{"ev": "step", "op": "print", "n": shape.Printed})
-			emit(map[string]any{"ev": "step", "op": "end", "result": "ok", "errid": "none", "delivered": shape.Printed, "same": oc.Fail == nil})
+			emit(map[string]any{"ev": "step", "op": "print", "n": shape.Printed, "dest": dest})
+			emit(map[string]any{"ev": "step", "op": "end", "result": "ok", "errid": "none", "delivered": deliveredAt(dest, shape.Printed), "same": oc.Fail == nil})
 		case mode == 1: // a real deadline on a program that never ends
+			shape.Dest, dest = "direct", "direct"
+			if shape.Printed > 6 {
+				shape.Printed = 5
+			}
 			src := shape.Source(false)
 			input := ""
 			if shape.UsesRecords() {
@@ -77,7 +102,7 @@ func Record(seed int64, n int, out string) (int, error) {
 			emit(map[string]any{"ev": "step", "op": "exec", "n": o.NAtCancel})
 			emit(map[string]any{"ev": "step", "op": "cancel", "why": "deadline"})
 			emit(map[string]any{"ev": "step", "op": "exec", "n": o.Since})
-			emit(map[string]any{"ev": "step", "op": "end", "result": o.Result, "errid": o.ErrID, "delivered": linesDelivered(o.Out, shape.Printed), "same": true})
+			emit(map[string]any{"ev": "step", "op": "end", "result": o.Result, "errid": o.ErrID, "delivered": deliveredAt(dest, linesDelivered(o.Out, shape.Printed)), "same": true})
 		default:
 			src := shape.Source(false)
 			input := ""
@@ -87,10 +112,27 @@ func Record(seed int64, n int, out string) (int, error) {
 			why := []string{"cancel", "deadline"}[r.Intn(2)]
 			pre := mode == 2
 			k := shape.Printed + 1 + r.Intn(300)
-			o := run(runOpts{src: src, input: input, vars: []string{"K", fmt.Sprint(k), "pad", fmt.Sprint(r.Intn(1000))},
-				why: why, pre: pre, hooked: true, buffered: r.Intn(2) == 0})
+			files := newRunFiles()
+			vars := append([]string{"K", fmt.Sprint(k), "pad", fmt.Sprint(r.Intn(1000))}, files.vars(true)...)
+			// Config.Output is a bufio.Writer when the lines go to buffered standard output (and sometimes when they go to a file)
+			o := run(runOpts{src: src, input: input, vars: vars, why: why, pre: pre, hooked: true,
+				buffered: dest == "buffered" || (dest == "file" && r.Intn(2) == 0), files: files})
+			got := 0
+			switch {
+			case pre:
+			case dest == "file":
+				got = linesDelivered(readFile(files.outf), shape.Printed)
+			case dest == "cmd":
+				_, got = drained(files.cmdf, shape.Printed)
+			default:
+				got = linesDelivered(o.Out, shape.Printed)
+			}
+			files.remove()
 			if o.Result == "parse-error" {
 				return t, fmt.Errorf("driver program rejected: %s\n%s", o.ErrText, src)
+			}
+			if o.NoMarker {
+				return t, fmt.Errorf("the command of a driver program did not come up within 30 s\n%s", src)
 			}
 			res := o.Result
 			if res == "aborted" {
@@ -100,13 +142,13 @@ func Record(seed int64, n int, out string) (int, error) {
 			if pre {
 				emit(map[string]any{"ev": "step", "op": "cancel", "why": why})
 				emit(map[string]any{"ev": "step", "op": "exec", "n": o.Since})
-				emit(map[string]any{"ev": "step", "op": "end", "result": res, "errid": o.ErrID, "delivered": 0, "same": true})
+				emit(map[string]any{"ev": "step", "op": "end", "result": res, "errid": o.ErrID, "delivered": deliveredAt(dest, 0), "same": true})
 			} else {
-				emit(map[string]any{"ev": "step", "op": "print", "n": shape.Printed})
+				emit(map[string]any{"ev": "step", "op": "print", "n": shape.Printed, "dest": dest})
 				emit(map[string]any{"ev": "step", "op": "exec", "n": o.NAtCancel})
 				emit(map[string]any{"ev": "step", "op": "cancel", "why": why})
 				emit(map[string]any{"ev": "step", "op": "exec", "n": o.Since})
-				emit(map[string]any{"ev": "step", "op": "end", "result": res, "errid": o.ErrID, "delivered": linesDelivered(o.Out, shape.Printed), "same": true})
+				emit(map[string]any{"ev": "step", "op": "end", "result": res, "errid": o.ErrID, "delivered": deliveredAt(dest, got), "same": true})
 			}
 		}
 	}
